@@ -82,7 +82,12 @@ func (c05) Rule() string {
 		"doubled, key cut there, text written as if the byte were a placeholder); 1 case in 10 'tails' = 10-40 parameterised routes sharing prefixes " +
 		"(half of them with the dumped arrays and repr_check, half lookups only), ~90 paths each: a complete pattern (instantiated or verbatim) + a reserved byte " +
 		"(# NUL : *) + nothing / what is left of another instantiated pattern from some offset, and 'guided' paths read off the real array: whenever a cell carries " +
-		"the CHECK of a reserved byte the path that reaches it and walks on over fitting cells to an end-of-key cell. Enumerated fixed tables of both families. Non-trivial: a table with a parameterised key and at least one lookup that is found with parameters or contains a reserved byte."
+		"the CHECK of a reserved byte the path that reaches it and walks on over fitting cells to an end-of-key cell; 1 case in 10 'long' = 1-6 routes of 100-300 bytes with 3-8 placeholders after runs of " +
+		"1-4 literal resource words, little shared prefix (the array has ~one cell per key byte, far more than 64 per record; half of them with the dumped arrays and repr_check, " +
+		"at most 3 routes then), 120-440 paths each: two instantiations of every key, every proper prefix ending at a segment boundary (after a literal run, after a parameter value, " +
+		"with and without the following '/'), proper prefixes cut anywhere else (all or a sample), instantiations continued by more text or by the tail of another instantiation, " +
+		"head of one instantiation + tail of another at segment boundaries, and every byte string the real array accepts (breadth-first walk over fitting cells to the end-of-key cells). " +
+		"Enumerated fixed tables of the three families. Non-trivial: a table with a parameterised key and at least one lookup that is found with parameters or contains a reserved byte."
 }
 
 func (c05) Decode(raw json.RawMessage) (any, error) {
@@ -1090,19 +1095,287 @@ func c05GenTails(r *rand.Rand, withArrays bool) c05In {
 	return c05In{Kind: kind, Pats: toBs(keys), Paths: paths, Origin: origin, Flavour: "tails"}
 }
 
+// ---------- few, long, deeply nested routes (the array grows far beyond the number of records) ----------
+
+// Resource words of REST-style paths: long literal runs, many distinct bytes, little sharing.
+var c05LongRes = []string{"snapshots", "views", "backups", "locations", "schemas", "projects", "clusters", "subscriptions",
+	"revisions", "operations", "instances", "organizations", "serviceAccounts", "notification-channels", "billing_accounts",
+	"deployments", "environments", "workspaces", "repositories", "pull-requests", "attachments", "permissions", "role.bindings",
+	"tenants", "datasets", "tables", "partitions", "node-pools", "firewall_rules", "certificates", "zones", "records", "members",
+	"invitations", "audit-logs", "exports", "%7Eusers", "global", "regions", "keyRings", "cryptoKeys", "versions", "Jobs", "x1", "a"}
+var c05LongHeads = []string{"v1", "v2", "v1beta1", "api", "api/v3", "rest", "admin", "internal/v1alpha"}
+var c05LongVals = []string{"22", "48", "7", "81", "us-east1", "3f2a9c", "prod", "my-cluster", "a.b", "u", "x_y", "0", "\xc3\xa9",
+	"2024-01-01", "ABC", "%41", "00000000-0000-4000-8000-000000000001", "k"}
+
+// c05LongKey: 100-300 bytes, 3-8 placeholders, each after a run of one or more literal segments.
+func c05LongKey(r *rand.Rand, existing []string) string {
+	for tries := 0; ; tries++ {
+		nPar := 3 + r.Intn(6)
+		target := 100 + r.Intn(201)
+		var sb strings.Builder
+		used := map[string]bool{}
+		name := func(w string) string {
+			n := strings.TrimSuffix(strings.Map(func(c rune) rune {
+				if c == '%' || c == '.' || c == '-' {
+					return '_'
+				}
+				return c
+			}, w), "s")
+			if r.Intn(4) == 0 {
+				n += []string{"_id", "Id", "Name"}[r.Intn(3)]
+			}
+			for used[n] {
+				n += fmt.Sprintf("%d", len(used))
+			}
+			used[n] = true
+			return n
+		}
+		// little shared prefix: one key in three starts with the first one or two literal segments of another
+		if len(existing) > 0 && r.Intn(3) == 0 {
+			segs := strings.Split(strings.TrimPrefix(existing[r.Intn(len(existing))], "/"), "/")
+			for _, s := range segs[:1+r.Intn(2)] {
+				if strings.ContainsAny(s, ":*") {
+					break
+				}
+				sb.WriteString("/" + s)
+			}
+		}
+		if sb.Len() == 0 {
+			sb.WriteString("/" + c05LongHeads[r.Intn(len(c05LongHeads))])
+		}
+		per := target / nPar
+		for p := 0; p < nPar; p++ {
+			start, w := sb.Len(), ""
+			for n := 0; n == 0 || (sb.Len()-start < per-16 && n < 4); n++ {
+				w = c05LongRes[r.Intn(len(c05LongRes))]
+				sb.WriteString("/" + w)
+			}
+			if r.Intn(14) == 0 {
+				sb.WriteString("=:" + name(w)) // RESTCONF form
+			} else {
+				sb.WriteString("/:" + name(w))
+			}
+		}
+		switch k := r.Intn(10); {
+		case k < 5:
+			sb.WriteString("/" + c05LongRes[r.Intn(len(c05LongRes))])
+			if k == 0 {
+				sb.WriteString("/" + c05LongRes[r.Intn(len(c05LongRes))])
+			}
+		case k < 6:
+			sb.WriteString("/*" + name("rests"))
+		case k < 7:
+			sb.WriteString("/")
+		}
+		k := sb.String()
+		if (len(k) >= 100 && len(k) <= 300 && c05KeyInDomain(k)) || tries > 50 {
+			return k
+		}
+	}
+}
+
+func c05LongTable(r *rand.Rand, size int) []string {
+	seen := map[string]bool{}
+	var keys []string
+	for tries := 0; len(keys) < size && tries < size*8; tries++ {
+		k := c05LongKey(r, keys)
+		s, _ := c05Shape(k)
+		if seen[s] || !c05KeyInDomain(k) {
+			continue
+		}
+		seen[s] = true
+		keys = append(keys, k)
+	}
+	return keys
+}
+
+// c05LongInst instantiates a key with identifier-like values and returns, besides the path, the offsets
+// at which a segment ends (before its '/') or begins (after it): the ends of literal runs and of
+// parameter values, with and without the separator that follows.
+func c05LongInst(r *rand.Rand, key string) (path string, cuts []int) {
+	var sb strings.Builder
+	for i := 0; i < len(key); {
+		switch key[i] {
+		case ':':
+			for i < len(key) && key[i] != '/' {
+				i++
+			}
+			if r.Intn(12) == 0 {
+				sb.WriteString(c05Text(r, false))
+			} else {
+				sb.WriteString(c05LongVals[r.Intn(len(c05LongVals))])
+			}
+		case '*':
+			sb.WriteString([]string{"a/b/c", "bc", "/", "x", "logs/2024/01.txt"}[r.Intn(5)])
+			i = len(key)
+		case '/':
+			cuts = append(cuts, sb.Len(), sb.Len()+1)
+			sb.WriteByte('/')
+			i++
+		default:
+			sb.WriteByte(key[i])
+			i++
+		}
+	}
+	return sb.String(), cuts
+}
+
+// c05Accepted spells the byte strings the real array accepts: a breadth-first walk from the root over every
+// cell that fits (BASE xor byte in range, CHECK = byte), a value written for every ':' cell, down to each
+// end-of-key or wildcard cell in reach. On an array that represents the trie of the keys these are one
+// instantiation per key; when two nodes were given one BASE the children of one are reachable from the
+// other and the walk spells the paths that cross over. As with c05Guided only the choice of inputs uses
+// the array.
+func c05Accepted(r *rand.Rand, bc []uint32, limit int) []string {
+	a := c05Arr(bc)
+	var out []string
+	type at struct {
+		idx    int
+		prefix string
+	}
+	// breadth first, so that the shortest accepted strings come first even when the cells form a cycle
+	frontier := []at{{1, ""}}
+	for depth := 0; depth < 420 && len(frontier) > 0 && len(out) <= limit*8 && len(a) > 1; depth++ {
+		var next []at
+		for _, f := range frontier {
+			if _, ok := a.edge(f.idx, '#'); ok {
+				out = append(out, f.prefix)
+			}
+			if _, ok := a.edge(f.idx, '*'); ok {
+				out = append(out, f.prefix+"r/s")
+			}
+			for c := 1; c < 256 && len(next) < 2000; c++ {
+				j, ok := a.edge(f.idx, byte(c))
+				if !ok || c == '#' || c == '*' {
+					continue
+				}
+				if c == ':' {
+					next = append(next, at{j, f.prefix + c05LongVals[r.Intn(len(c05LongVals))]})
+				} else {
+					next = append(next, at{j, f.prefix + string([]byte{byte(c)})})
+				}
+			}
+		}
+		frontier = next
+	}
+	if len(out) > limit {
+		// the shortest ones (the readable counterexamples) and a sample of the rest
+		sort.SliceStable(out, func(i, j int) bool { return len(out[i]) < len(out[j]) })
+		rest := out[limit/2:]
+		r.Shuffle(len(rest), func(i, j int) { rest[i], rest[j] = rest[j], rest[i] })
+		out = out[:limit]
+	}
+	return out
+}
+
+// c05LongPaths: every key instantiated; every proper prefix of an instantiation that ends where a segment
+// ends or begins; proper prefixes cut inside a literal run or a value (all of them when few, else sampled);
+// the instantiation continued by more text; the head of one instantiation joined to the tail of another
+// at segment boundaries; the paths the real array accepts.
+func c05LongPaths(r *rand.Rand, keys []string, budget int) (paths []Bs, origin []string) {
+	seen := map[string]bool{}
+	add := func(p, o string) {
+		if !seen[p] {
+			seen[p] = true
+			paths = append(paths, Bs(p))
+			origin = append(origin, o)
+		}
+	}
+	type inst struct {
+		p    string
+		cuts []int
+	}
+	var insts []inst
+	for _, k := range keys {
+		for n := 0; n < 2; n++ {
+			p, cuts := c05LongInst(r, k)
+			insts = append(insts, inst{p, cuts})
+			add(p, "inst")
+		}
+	}
+	var mid []string
+	for n, in := range insts {
+		for _, c := range in.cuts {
+			if c < len(in.p) && (n%2 == 0 || r.Intn(3) == 0) {
+				add(in.p[:c], "prefix")
+			}
+		}
+		if n%2 == 0 {
+			for c := 1; c < len(in.p); c++ {
+				mid = append(mid, in.p[:c])
+			}
+		}
+	}
+	for _, in := range insts {
+		w := c05LongRes[r.Intn(len(c05LongRes))]
+		other := insts[r.Intn(len(insts))]
+		tail := other.p
+		if len(other.cuts) > 0 {
+			tail = other.p[other.cuts[r.Intn(len(other.cuts))]:]
+		}
+		for _, ext := range []string{"/", "x", "/x", "/" + w, "/" + w + "/" + c05LongVals[r.Intn(len(c05LongVals))], tail,
+			"/" + strings.TrimPrefix(tail, "/"), string([]byte{c05ReservedByte(r)}) + tail} {
+			add(in.p+ext, "extended")
+		}
+	}
+	for n := 0; n < 8*len(keys); n++ {
+		x, y := insts[r.Intn(len(insts))], insts[r.Intn(len(insts))]
+		if len(x.cuts) == 0 || len(y.cuts) == 0 {
+			continue
+		}
+		add(x.p[:x.cuts[r.Intn(len(x.cuts))]]+y.p[y.cuts[r.Intn(len(y.cuts))]:], "crossover")
+	}
+	for _, p := range c05Accepted(r, c05DumpBC(keys), 60) {
+		add(p, "accepted")
+	}
+	r.Shuffle(len(mid), func(i, j int) { mid[i], mid[j] = mid[j], mid[i] })
+	for _, p := range mid {
+		if len(paths) >= budget {
+			break
+		}
+		add(p, "prefix-mid")
+	}
+	return
+}
+
+func c05GenLong(r *rand.Rand, withArrays bool) c05In {
+	n := 1 + r.Intn(6)
+	if withArrays {
+		n = 1 + r.Intn(3) // the representation check is quadratic in the array
+	}
+	keys := c05LongTable(r, n)
+	budget := 420
+	if withArrays {
+		budget = 260
+	}
+	paths, origin := c05LongPaths(r, keys, budget)
+	kind := "look"
+	if withArrays {
+		kind = "tab"
+	}
+	return c05In{Kind: kind, Pats: toBs(keys), Paths: paths, Origin: origin, Flavour: "long"}
+}
+
 func (c05) Gen(r *rand.Rand, tier string, i int) any {
-	// two families are scheduled by the case index, so that every seed runs them: reserved bytes inside a
-	// literal segment of a key (i = 1 mod 10), reserved byte after a complete pattern on 10-40 routes (i = 6 mod 10)
+	// three families are scheduled by the case index, so that every seed runs them: reserved bytes inside a
+	// literal segment of a key (i = 1 mod 10), reserved byte after a complete pattern on 10-40 routes (i = 6 mod 10),
+	// few long deeply nested routes (i = 3 mod 10; with the dumped arrays and repr_check for i = 3 mod 20)
 	switch i % 10 {
 	case 1:
 		return c05GenVerbs(r)
 	case 6:
 		return c05GenTails(r, i%20 == 6 || tier == "thorough")
+	case 3:
+		return c05GenLong(r, i%20 == 3 || tier == "thorough")
 	}
 	switch k := r.Intn(100); {
 	case k < 70:
 		keys := c05Table(r, c05Size(r, tier))
 		paths, origin := c05Paths(r, keys, 14)
+		// a few of the byte strings the real array accepts (one per key when the array represents the keys)
+		for _, p := range c05Accepted(r, c05DumpBC(keys), 6) {
+			paths, origin = append(paths, Bs(p)), append(origin, "accepted")
+		}
 		return c05In{Kind: "tab", Pats: toBs(keys), Paths: paths, Origin: origin}
 	case k < 85:
 		keys := c05Table(r, 2+r.Intn(12))
@@ -1212,6 +1485,34 @@ func c05EnumTails(r *rand.Rand, keys []string) []any {
 	return out
 }
 
+// Four routes of 120-170 bytes that share almost nothing: the array has about one cell per key byte,
+// i.e. some 150 cells per record.
+var c05LongFixed = []string{
+	"/api/v3/organizations/:org/workspaces/:workspace/repositories/:repo/pull-requests/:number/attachments/:attachment/permissions",
+	"/v1/tenants/:tenant/datasets/:dataset/tables/:table/partitions/:partition/exports/:export/audit-logs/:entry/records/:record/versions",
+	"/v1/regions/:region/node-pools/:pool/firewall_rules/:rule/certificates/:cert/zones/:zone/members/:member/invitations/:invitation/keyRings/:ring/cryptoKeys",
+	"/internal/v1alpha/billing_accounts/:account/serviceAccounts/:sa/role.bindings/:binding/environments/:env/deployments/:deployment/revisions/*rest",
+}
+
+// c05EnumLong: a fixed table of long routes with EVERY proper prefix of one instantiation of every key,
+// the boundary / extension / crossover paths of c05LongPaths and the paths the real array accepts.
+func c05EnumLong(r *rand.Rand, keys []string) []any {
+	ps, os := c05LongPaths(r, keys, 1<<20)
+	var out []any
+	for lo := 0; lo < len(ps); lo += 300 {
+		hi := lo + 300
+		if hi > len(ps) {
+			hi = len(ps)
+		}
+		in := c05In{Kind: "look", Pats: toBs(keys), Paths: ps[lo:hi], Origin: os[lo:hi], Flavour: "long"}
+		if lo == 0 {
+			in.Kind = "tab"
+		}
+		out = append(out, in)
+	}
+	return out
+}
+
 func (c05) Enumerate(tier string) []any {
 	var out []any
 	consts := map[string]int{"ParamCharacter": 58, "WildcardCharacter": 42, "TerminationCharacter": 35, "SeparatorCharacter": 47,
@@ -1262,6 +1563,8 @@ func (c05) Enumerate(tier string) []any {
 	// instantiated, followed by '#' and by what is left of every other instantiated pattern from every offset
 	// (sampled down), by the other reserved bytes, and the paths its real array suggests
 	out = append(out, c05EnumTails(er, c05ApiFixed)...)
+	// few long routes: the array is far bigger than the record count; every proper prefix must be refused
+	out = append(out, c05EnumLong(er, c05LongFixed)...)
 	// small-scope exhaustive part: every path up to a length over {a b / : * #} against small tables
 	letters := []byte("ab/:*#")
 	var all func(n int) []string
